@@ -36,6 +36,8 @@ class JSim(cluster.Sim):
         self.acked_uncovered_kill = False
         self.kill_points = set()
         self.c06 = []
+        self.kill_plan = None        # None: sampled kill index (legacy, used by C09); dict: step_no -> (delivery index, primitive index, mode)
+        self.kill_counts = {}        # plan mode, counting pass: step_no -> (kind, [primitive counts per tick / per delivered message])
         LAYER.install()
         LAYER.reset()
         super(JSim, self).__init__(cfg, workdir)
@@ -183,6 +185,16 @@ class JSim(cluster.Sim):
         j = [0, 0, 0, 1, 1, 2, 2, 3, 4, 5, 6, 8, 10, 13][c % 14]
         mode = 'torn' if b % 3 == 0 else 'after'
         obj = self.nodes[name]
+        plan = None
+        counting = False
+        msg_at = 0
+        if self.kill_plan is not None:
+            plan = self.kill_plan.get(self.step_no)
+            if plan is None:
+                counting = True          # counting pass: perform the step, record how many primitive writes it makes, no kill
+                j = 10 ** 9
+            else:
+                msg_at, j, mode = plan
         self.prune(name, obj)
         LAYER.begin_step()
         LAYER.kill = (name, j, mode)
@@ -220,21 +232,35 @@ class JSim(cluster.Sim):
                 else:
                     # deliver queued messages one by one; the first delivery with more than j primitive writes dies there
                     g, to = target
+                    nmsg = 0
+                    per_msg = []
                     while g.q[to] and g.q[to][0] is not core.HELLO:
                         self.prune(name, obj)
                         LAYER.begin_step()
+                        if plan is not None:
+                            LAYER.kill = (name, j, mode) if nmsg == msg_at else None
+                        nmsg += 1
+                        per_msg.append(0)
                         m = g.q[to].popleft()
                         frm = g.peer(to)
                         msg = core.ppickle.loads(m)
                         self.on_deliver(frm, to, g, msg)
                         core.CLOCK.active = name
                         self.net.transports[to]._onMessageReceived(self.node_obj(frm), msg)
+                        per_msg[-1] = LAYER.count.get(name, 0)
+                        if counting:
+                            self.check(light=True)
             except KillNow:
                 pass
             except Exception as e:
                 self.escaped.append((self.step_no, name, type(e).__name__, str(e)[:200], 'killmid'))
         finally:
             LAYER.kill = None
+        if counting:
+            self.kill_counts[self.step_no] = (kind, [LAYER.count.get(name, 0)] if kind == 'tick' else per_msg, list(LAYER.log.get(name, [])) if kind == 'tick' else None)
+            if kind == 'tick':
+                self.after_tick(name, obj, core.CLOCK.t.get(name, core.EPOCH))
+            return (name, kind, 'counted', self.kill_counts[self.step_no][1])
         hit = LAYER.killed_at
         if hit is not None:
             self.kill_points.add((kind, hit[2], hit[1], hit[3]))
@@ -271,11 +297,10 @@ def strategy(tier):
 OWN = {'C06': None, 'C01': None, 'C04': {'committed-entry-differs'}, 'C02': {'success-but-not-in-sequence', 'success-with-wrong-result'}}
 
 
-def run_case(case):
+def run_once(case, kill_plan):
     cfg = dict(case['cfg'])
     cfg['target'] = list(OWN)
     cfg['journal'] = True
-    excluded = 0
     no_compaction = False
     if not cfg.get('dump') and cfg['rng'] % 4 != 0:
         # known finding (journal without dump file: compaction trims the journal although the snapshot is only in memory)
@@ -285,6 +310,7 @@ def run_case(case):
         no_compaction = True
     wd = simprop.new_workdir('c06')
     sim = JSim(cfg, wd)
+    sim.kill_plan = kill_plan
     install_monitors(sim)
     if no_compaction:
         sim.op_compact = lambda a, b, c: (sim.counters.__setitem__('compaction_excluded', sim.counters['compaction_excluded'] + 1), False)[1]
@@ -325,13 +351,52 @@ def run_case(case):
                 return s
             unknown = [v for v in o if findings.match(PROP, sig_of(v)) is None]
             v = unknown[0] if unknown else o[0]
-            res.violation = (sig_of(v), v[2] + ' [dump file: %s]' % bool(cfg.get('dump')))
+            res.violation = (sig_of(v), v[2] + ' [dump file: %s; in-step kill plan: %r]' % (bool(cfg.get('dump')), kill_plan))
         res.kill_points = set(sim.kill_points)
         res.excluded = sim.counters.get('compaction_excluded', 0)
+        res.kill_counts = dict(sim.kill_counts)
         return res
     finally:
         sim.destroy()
         shutil.rmtree(wd, ignore_errors=True)
+
+
+def run_case(case):
+    """Pass 1 runs the history with every kill-inside-step operation only *counting* the primitive storage writes of
+    that step (between-step kills are real). Then up to `plans` of those steps are re-executed (the whole case is
+    deterministic) with the process dying at a primitive write chosen among the ones the step really performs."""
+    if 'kill_plan' in case:          # replay of a shrunk in-step kill
+        return run_once(case, dict((int(k), tuple(v)) for k, v in case['kill_plan'].items()))
+    res = run_once(case, {})
+    if res.violation is not None and findings.match(PROP, res.violation[0]) is None:
+        return res
+    cands = []
+    for step, (kind, counts, log) in sorted(res.kill_counts.items()):
+        for mi, k in enumerate(counts):
+            for j in range(k):
+                cands.append((step, mi, j))
+    nplans = case.get('plans', 2)
+    salt = case['cfg'].get('rng', 0)
+    chosen = []
+    if cands:
+        # deterministic spread over the candidates (all of them if there are few)
+        stride = max(1, len(cands) // nplans)
+        for i in range(min(nplans, len(cands))):
+            chosen.append(cands[(salt + i * stride) % len(cands)])
+    for n_, (step, mi, j) in enumerate(chosen):
+        mode = 'torn' if (salt + n_) % 3 == 0 else 'after'
+        r2 = run_once(case, {step: (mi, j, mode)})
+        res.kill_points |= r2.kill_points
+        res.classes = sorted(set(res.classes) | set(r2.classes))
+        res.nontrivial = res.nontrivial or r2.nontrivial
+        if r2.violation is not None:
+            kf = findings.match(PROP, r2.violation[0])
+            if res.violation is None or (kf is None and findings.match(PROP, res.violation[0]) is not None):
+                res.violation = r2.violation
+                res.sample = dict(r2.sample or {}, kill_plan={str(step): [mi, j, mode]})
+            if kf is None:
+                break
+    return res
 
 
 def shard(seed, n, tier):
